@@ -4,27 +4,79 @@ E1 slice contract (contracts/text_output.py) on the real loop of
 header_generator._generate_structure_definition: a field is emitted iff it has no [text_output]
 attribute or the value "Emit" (Skip => absent), decoded iff named and writable, and the emission loop
 iterates fields_in_dependency_order (with C15: fields are emitted after the fields they depend on).
-Everything else in the property (the struct-level round trip through std::string stream templates, the
-integer codec) is NOT under contract and not claimed."""
+E2a contracts (contracts/text_codec.py) on the real integer codec of runtime/cpp/emboss_text_util.h:
+DecodeInteger<T> accepts exactly the valid numerals whose value lies in range(T) and returns that value
+(for texts of any length: loop cutpoint + invariant), WriteIntegerToTextStream<Stream,T> writes the
+canonical numeral of its argument for every value, base 2/10/16 and grouping, hence decode(encode(v)) == v
+and malformed or out-of-range numbers are rejected rather than wrapped.
+The struct-level round trip through std::string stream templates is NOT under contract and not claimed."""
 from vlib import core, pool
 from contracts import text_output
 
 
+def lemma_obligations():
+    """Spec-level lemmas in linear integer arithmetic (no code): z3, cross-checked by cvc5 in the thorough tier."""
+    import time
+    import z3
+    from contracts import text_codec
+    out = []
+    for (name, formula) in text_codec.lemmas():
+        s = z3.Solver()
+        s.set("timeout", 60000)
+        s.add(z3.Not(formula))
+        t0 = time.time()
+        r = s.check()
+        out.append(core.Obligation(name, core.PROVED if r == z3.unsat else (core.REFUTED if r == z3.sat else core.UNKNOWN), "z3-5.1(py)", time.time() - t0,
+                                   model=None if r != z3.sat else {"model": str(s.model())}, detail="linear integer arithmetic lemma"))
+    return out
+
+
 def main(args):
     run = core.Run("C06", args.tier, "proof", "./check C06 --tier " + args.tier)
+    from contracts import text_codec
+    from vlib.llvc import harness, viewcheck
+    jobs = text_codec.jobs(args.tier)
+    idx = viewcheck.wrapper_index(jobs)
     if args.replay:
         import json
-        print(json.dumps(text_output.replay("", None), indent=1))
+        d = json.load(open(args.replay))
+        if d["obligation"].split(".")[0].split("[")[0] in idx:
+            ob = core.Obligation(d["obligation"].replace(d["obligation"].split(".")[0], d["obligation"].split(".")[0].split("[")[0], 1), d["verdict"], model=d.get("model"))
+            print(json.dumps(viewcheck.replay_obligation(ob, idx), indent=1, default=str))
+        else:
+            print(json.dumps(text_output.replay("", None), indent=1))
         return 0
     pool.run_targets(run, "contracts.text_output", list(text_output.TARGETS))
     for ob in run.obligations:
         if ob.verdict == core.REFUTED and "emitted-iff" in ob.name:
             ob.replay = text_output.replay(ob.name, ob.model)
+    # E2a: the integer text codec (runtime/cpp/emboss_text_util.h)
+    n0 = len(run.obligations)
+    harness.run_jobs(run, jobs)
+    n = 0
+    for ob in run.obligations[n0:]:
+        if ob.verdict == core.REFUTED and n < 8 and ob.model:
+            base = ob.name.split(".")[0]
+            ob2 = core.Obligation(ob.name.replace(base, base.split("[")[0], 1), ob.verdict, model=ob.model)
+            ob.replay = viewcheck.replay_obligation(ob2, idx)
+            n += 1
+    run.extend(lemma_obligations())
     run.function("compiler.back_end.cpp.header_generator._generate_structure_definition (the loop over fields_in_dependency_order)",
                  "pyvc: statement-level (slice) contract, loop body executed from a symbolic pre-state for every attribute/read-only/virtual/anonymous combination")
-    run.extra["not_covered"] = ["UpdateFromText(WriteToString(view)) round trip (std::string stream templates, per-structure generated text methods)",
-                                "integer text codec (WriteIntegerToTextStream / DecodeInteger)", "text output options (multi-line, comments, bases, grouping)"]
+    run.function("emboss::support::DecodeInteger<T> for T in {int,uint}{8,16,32,64}_t",
+                 "llvc: real template, loop cutpoint with invariant over recursively defined spec functions (arbitrary text length); accepts exactly the valid in-range numerals, result == value, text unchanged, no trap / out-of-bounds read")
+    run.function("emboss::support::WriteIntegerToTextStream<Stream,T> for the same T, base in {2,10,16}, digit grouping on/off",
+                 "llvc: real template, path splitting on the digit-loop trip count (complete: the loop is bounded by the operand width); output is the canonical numeral of the value; stack buffer never overrun")
+    run.extra["not_covered"] = ["UpdateFromText(WriteToString(view)) round trip at structure level (std::string / std::vector token reader, per-structure generated text methods)",
+                                "text output options other than base and digit grouping (multi-line, comments, indentation)", "floating-point and enum-name text codecs"]
+    run.extra["composition"] = ("decode(encode(v)) == v: encoder post (canonical numeral c with NUM(c) == v) + decoder post (accepts every valid in-range numeral and returns NUM) + "
+                                "lemma.horner-equals-positional / lemma.division-chain-sum / lemma.horner-magnitude-monotone (z3, linear integer arithmetic); the substitution steps and the "
+                                "integer reading of the no-wrap bit-vector facts are paper steps (contracts/text_codec.py docstring)")
     run.assume(*core.STANDING_ASSUMPTIONS["E1"])
-    run.assume("callees of the slice (_generate_structure_field_methods, code_template.format_template, ir_util attribute helpers) are contracts: their results are opaque tokens")
-    run.trust("z3 5.1.0", "pyvc", "CPython ast")
+    run.assume(*core.STANDING_ASSUMPTIONS["E2"])
+    run.assume("callees of the slice (_generate_structure_field_methods, code_template.format_template, ir_util attribute helpers) are contracts: their results are opaque tokens",
+               "DecodeInteger: texts of 2^31 bytes and more are outside the contract (`unsigned offset` wraps); std::string is modelled by its libstdc++ layout {data pointer, size} over the caller's bytes",
+               "DecodeInteger: ACC/OKP are uninterpreted for the solver, only instances of their recursive definition are assumed; antitonicity of OKP and the induction over the loop are paper steps",
+               "WriteIntegerToTextStream: the Stream is a minimal appending stream written for the harness; division by the constant base is encoded by fresh quotient/remainder variables with their (unique) defining constraints")
+    run.trust("z3 5.1.0", "pyvc", "CPython ast", "clang++ 14 -O2", "llvc")
     return run.finish()
